@@ -95,8 +95,10 @@ class Unfolder:
         return s.check()
 
 
-def _discharge(ob, timeout_ms, unfolder=None):
+def _discharge(ob, timeout_ms, unfolder=None, lemmas=()):
     t0 = time.time()
+    if lemmas:       # lemmas over specification functions (proved elsewhere, listed in the evidence) join the hypotheses
+        ob.pc = list(ob.pc) + list(lemmas)
     if unfolder is not None and not ob.expect_sat:
         for depth in (1, 2, 3):
             try:
@@ -195,8 +197,17 @@ def verify_one(task):
         rec["dropped"] = sorted(set(eng.dropped))
         obs = list(ctx.obligations.values())
         unf = Unfolder(reg)
+        lemmas = []
+        for build in getattr(reg, "lemmas", []):
+            try:
+                lem = build(reg)
+                if lem is not None:
+                    lemmas.append(lem)
+            except Exception:
+                pass
+        rec["lemmas"] = [getattr(b, "__name__", "lemma") for b in getattr(reg, "lemmas", [])] if lemmas else []
         for ob in obs:
-            res, backend, ms, model = _discharge(ob, timeout_ms, unf)
+            res, backend, ms, model = _discharge(ob, timeout_ms, unf, lemmas if not ob.expect_sat else ())
             rec["obligations"].append({"name": ob.name, "kind": ob.kind, "line": ob.line, "tags": list(ob.tags),
                                        "result": res, "backend": backend, "ms": round(ms, 1), "model": model})
         if not obs:
